@@ -2,6 +2,7 @@ package main
 
 import (
 	"fmt"
+	"go/token"
 	"os"
 	"go/constant"
 	"go/types"
@@ -769,6 +770,33 @@ func (u *Unit) evalCall(st *State, env *SpecEnv, e *Spec) (Val, error) {
 			return Val{}, err
 		}
 		return u.specLoad(st, pv)
+	case "firstb", "lastb":
+		as, err := args()
+		if err != nil {
+			return Val{}, err
+		}
+		return intVal(fmt.Sprintf("(%s %s)", e.Name, as[0].Terms[0])), nil
+	case "nosep":
+		as, err := args()
+		if err != nil {
+			return Val{}, err
+		}
+		return boolVal(fmt.Sprintf("(nosep %s %s)", as[0].Terms[0], as[1].Terms[0])), nil
+	case "chr":
+		as, err := args()
+		if err != nil {
+			return Val{}, err
+		}
+		return Val{T: tStr, Terms: []Term{fmt.Sprintf("(chr %s)", as[0].Terms[0])}}, nil
+	case "zero":
+		if len(e.Args) != 1 {
+			return Val{}, fmt.Errorf("zero(T)")
+		}
+		t, err := u.resolveType(env, e.Args[0])
+		if err != nil {
+			return Val{}, err
+		}
+		return u.zeroVal(t), nil
 	case "nlp":
 		as, err := args()
 		if err != nil {
@@ -1118,4 +1146,95 @@ func (u *Unit) instantiate(st *State, iv Term) {
 	for _, q := range st.qfacts {
 		st.assume(sImp(q.ante, strings.ReplaceAll(q.impl, q.bv, iv)))
 	}
+}
+
+// conjuncts flattens top-level && of a spec expression.
+func conjuncts(e *Spec) []*Spec {
+	if e != nil && e.Kind == SBinary && e.Op == "&&" {
+		return append(conjuncts(e.A), conjuncts(e.B)...)
+	}
+	return []*Spec{e}
+}
+
+func hasRangeForall(e *Spec) bool {
+	for _, c := range conjuncts(e) {
+		if c.Kind == SQuant && c.Op == "forall" && c.B != nil {
+			return true
+		}
+		if c.Kind == SBinary && c.Op == "==>" && hasRangeForall(c.B) {
+			return true
+		}
+	}
+	return false
+}
+
+// obligeClause checks a contract clause. Universally quantified conjuncts (over an index
+// range) are skolemised by the generator: a fresh index constant is introduced on a side
+// state, the quantified facts known on the path are instantiated at it, and the body is
+// checked for that constant - a quantifier-free goal instead of one that depends on the
+// solver's trigger selection.
+func (u *Unit) obligeClause(st *State, env *SpecEnv, e *Spec, kind, label string, pos token.Pos, human string, props []string, where string) error {
+	full, err := u.evalBool(st, env, e)
+	if err != nil {
+		return err
+	}
+	if st.discover != nil || st.dead {
+		return nil
+	}
+	if !hasRangeForall(e) {
+		u.oblige(st, kind, label, full, pos, human, props, where)
+		return nil
+	}
+	var plain []Term
+	var check func(cs *State, cenv *SpecEnv, c *Spec, depth int) error
+	check = func(cs *State, cenv *SpecEnv, c *Spec, depth int) error {
+		for _, cj := range conjuncts(c) {
+			switch {
+			case cj.Kind == SQuant && cj.Op == "forall" && cj.B != nil:
+				s2 := cs.clone()
+				lo, err1 := u.evalInt(s2, cenv, cj.B)
+				hi, err2 := u.evalInt(s2, cenv, cj.C)
+				if err1 != nil || err2 != nil {
+					return fmt.Errorf("%v %v", err1, err2)
+				}
+				sk := u.fresh(s2, "sk_"+cj.Name, "Int")
+				s2.assume(fmt.Sprintf("(and (<= %s %s) (< %s %s))", lo, sk, sk, hi))
+				u.instantiate(s2, sk)
+				if err := check(s2, cenv.with(cj.Name, Val{T: tInt, Terms: []Term{sk}}), cj.A, depth+1); err != nil {
+					return err
+				}
+			case cj.Kind == SBinary && cj.Op == "==>" && hasRangeForall(cj.B):
+				a, err := u.evalBool(cs, cenv, cj.A)
+				if err != nil {
+					return err
+				}
+				s2 := cs.clone()
+				s2.assume(a)
+				if err := check(s2, cenv, cj.B, depth+1); err != nil {
+					return err
+				}
+			default:
+				t, err := u.evalBool(cs, cenv, cj)
+				if err != nil {
+					return err
+				}
+				if depth == 0 {
+					plain = append(plain, t)
+				} else if !cs.dead {
+					u.recordObl(cs, kind, label, t, pos, human, props, where, t == "true")
+				}
+			}
+		}
+		return nil
+	}
+	if err := check(st, env, e, 0); err != nil {
+		return err
+	}
+	if len(plain) > 0 {
+		t := sAnd(plain...)
+		u.recordObl(st, kind, label, t, pos, human, props, where, t == "true")
+	}
+	st.assume(full)
+	u.harvest(st, env, e, "true", 0)
+	return nil
 }
